@@ -184,3 +184,37 @@ def update_reference_in_list_cases():
                         if c == 3 and not (x is o and x.line is other and x.orient == "-"):
                             return "unrelated oriented reference touched in %s" % (combo,)
     return True
+
+
+def path_list_sizes(ns, no, what):
+    """real Path lines with ns segments and no overlaps (all CIGARs, all '*', mixed): the verdict of _validate_lists_size / the number of
+    links of _compute_required_links against the stated rule; the witness sizes first, then every size up to 5"""
+    sizes = [(ns, no)] if 1 <= ns <= 30 and 1 <= no <= 30 else []
+    sizes += [(a, b) for a in range(1, 6) for b in range(1, 7)]
+    for a, b in sizes:
+        for kind in ("cigar", "star", "mixed"):
+            ov = ["*" if (kind == "star" or (kind == "mixed" and k % 2 == 0)) else "1M" for k in range(b)]
+            l = gfapy.Line("P\tp\t%s\t%s" % (",".join("s%d+" % k for k in range(a)), ",".join(ov)), vlevel=0)
+            if what == "validate":
+                want = b in (a - 1, a) or (b == 1 and ov[0] == "*")
+                try:
+                    l._validate_lists_size(); got = True
+                except gfapy.InconsistencyError:
+                    got = False
+                except Exception as e:
+                    return "%d segments, overlaps %s: %s" % (a, ov, type(e).__name__)
+                if got != want:
+                    return "%d segments, overlaps %s: accepted=%s" % (a, ov, got)
+            else:
+                undef = b == 1 and ov[0] == "*"
+                steps = a if b == a else a - 1
+                try:
+                    r = l._compute_required_links(); got = len(r)
+                except gfapy.InconsistencyError:
+                    got = "err"
+                except Exception as e:
+                    return "%d segments, overlaps %s: %s escapes" % (a, ov, type(e).__name__)
+                want = 0 if a == 1 else ("err" if (not undef and b < steps) else steps)
+                if got != want:
+                    return "%d segments, overlaps %s: %s links, expected %s" % (a, ov, got, want)
+    return True
